@@ -87,16 +87,13 @@ def build_cc(spec):
         from hypergraphx.utils import cc
 
         bits = present_bits(S, cands, fixed)
+        from verif.build import build_from_bits
+
         h = Hypergraph()
-        order = list(range(len(cands)))
-        if spec.get("reverse"):
-            order.reverse()
         for n in nodes:
             h.add_node(n)
-        for i in order:
-            if bits[i]:
-                h.add_edge(cands[i])
-        present = [cands[i] for i in range(len(cands)) if bits[i]]
+        mode = spec.get("build", "add-rev" if spec.get("reverse") else "add")
+        present = build_from_bits(cands, bits, h.add_edge, h.remove_edge, mode)
         kw = {}
         if fmode != "none":
             f = S.int("f")
@@ -153,6 +150,25 @@ def build_cc(spec):
             return Fail("is_connected")
         if sorted(h.isolated_nodes(**kw), key=str) != sorted([n for n in nodes if len(cls[n]) == 1], key=str):
             return Fail("isolated_nodes")
+        # the same object is now asked with the other spellings of the filter and without a filter, then with the
+        # first filter again: answers must not depend on what was asked before
+        ref0 = components(nodes, present)
+        if sorted(sorted(c, key=str) for c in h.connected_components()) != sorted(sorted(c, key=str) for c in ref0):
+            return Fail("connected_components:unfiltered-after-filtered")
+        if sorted(h.isolated_nodes(), key=str) != sorted([n for c in ref0 if len(c) == 1 for n in c], key=str):
+            return Fail("isolated_nodes:unfiltered-after-filtered")
+        for n in nodes:
+            if h.degree(n) != len([e for e in present if n in e]):
+                return Fail("degree:unfiltered-after-filtered")
+        if fmode != "none":
+            other = {"size": f + 1} if fmode == "order" else {"order": f - 1}
+            if sorted(sorted(c, key=str) for c in h.connected_components(**other)) != refset:
+                return Fail("connected_components:other-spelling-of-the-same-filter")
+            if sorted(sorted(c, key=str) for c in h.connected_components(**kw)) != refset:
+                return Fail("connected_components:filtered-after-unfiltered")
+            for n in nodes:
+                if set(h.node_connected_component(n, **kw)) != cls[n]:
+                    return Fail("node_connected_component:filtered-after-unfiltered")
         return None
 
     return harness
@@ -240,7 +256,8 @@ def obligations(tier, seed):
     for cname, nfix, rev in plans:
         for fixed in itertools.product([0, 1], repeat=nfix):
             for fmode in ("none", "order", "size"):
-                out.append({"family": "cc", "cands": cname, "fixed": list(fixed), "fmode": fmode, "reverse": rev})
+                out.append({"family": "cc", "cands": cname, "fixed": list(fixed), "fmode": fmode, "reverse": rev,
+                            "build": ("add", "remove", "readd")[(sum(fixed) + len(fmode)) % 3]})
     for cname in ("n1", "n2"):
         for fmode in ("none", "order", "size"):
             out.append({"family": "cc", "cands": cname, "fixed": [], "fmode": fmode, "reverse": False})
